@@ -42,6 +42,14 @@ CHECKS["C08"] = ("fault_enumeration", "DESIGN.md §7 C08",
     "within the reader-call budget. Fault enumeration per base image; the set of base images is sampled.",
     "Termination is judged by reader-call budget and stall detector (a loop doing no I/O would only hit the wall backstop); ValueError is accepted from every entry point.")
 
+CHECKS["C17"] = ("exploration", "DESIGN.md §7 C17",
+    "deterministic simulation with storage fault injection: Guardrails payloads from an independent masker on a simulated device; seeded keys/options/positions; bit-rot faults; checksum safety invariant",
+    "Seeded search over environmental keys of every length 2-256, guard-option subsets, positions and raw/XorEncoded "
+    "containers; fault-free runs must recover configuration, key (mod tiling), guard settings, checksum and offsets; runs "
+    "with injected bit flips (settings, key-bearing padding, checksum, marker, guard settings) or a wrong stored checksum are "
+    "judged only by the safety invariant 'configuration reported => checksum matches the stored one'.",
+    "Trusts the independent masker/checksum (anchored to the real Guardrails sample); configurations are zero-padded; default chunk size.")
+
 NOT_APPLICABLE = {
     "C02": "Pure function config-block bytes -> settings/views; no schedule, clock, fault, reader state or history for a simulator to control.",
     "C03": "Pure decoders of binary sub-encodings (bytes -> steps/strings); nothing to inject or interleave.",
